@@ -100,6 +100,13 @@ def polarity(fnode, negate_value, source_is):
         if isinstance(e, ast.UnaryOp) and isinstance(e.op, ast.Invert):
             v = ev(e.operand)
             return -v if v else None
+        if isinstance(e, ast.IfExp):
+            tv = test_value(e.test)
+            if tv is True:
+                return ev(e.body)
+            if tv is False:
+                return ev(e.orelse)
+            return None
         if isinstance(e, ast.Name):
             return pol.get(e.id)
         return None
@@ -215,9 +222,14 @@ def run(ctx):
         elif isinstance(s, ast.AugAssign):
             tg = [s.target]
         for t in tg:
-            for x in ast.walk(t):
-                if isinstance(x, ast.Name) and x.id == data:
-                    writes.append(s)
+            # the array being written is the base of the target, not every
+            # mention of it inside the index expression
+            base = t
+            while isinstance(base, (ast.Subscript, ast.Attribute)):
+                base = base.value
+            if isinstance(base, ast.Name) and base.id == data and \
+                    s not in writes:
+                writes.append(s)
         if isinstance(s, ast.Call) and isinstance(s.func, ast.Attribute) and \
                 norm(s.func.value) == data and \
                 s.func.attr in ("fill", "put", "sort", "resize", "itemset"):
@@ -255,11 +267,15 @@ def run(ctx):
         inv = [norm(a) for a in c.args[1:]] + \
             [norm(k.value) for k in c.keywords]
         first = c.args[0] if c.args else None
-        plane_ok = isinstance(first, ast.Subscript) and \
-            norm(first.slice) == norm(lp.target) and \
-            isinstance(lp.iter, ast.Call) and \
-            norm(lp.iter.func) == "range" and \
-            norm(lp.iter.args[-1]) == norm(first.value) + ".shape[0]"
+        plane_ok = (isinstance(first, ast.Subscript) and
+                    norm(first.slice) == norm(lp.target) and
+                    isinstance(lp.iter, ast.Call) and
+                    norm(lp.iter.func) == "range" and
+                    norm(lp.iter.args[-1]) == norm(first.value) +
+                    ".shape[0]") or \
+            (isinstance(first, ast.Name) and
+             norm(first) == norm(lp.target) and
+             isinstance(lp.iter, ast.Name))      # for plane in data
         ctx.check("C10-R4", mf, "plane loop " + norm(c), plane_ok and
                   not (set(inv) & assigned),
                   "each plane data[k], k in range(shape[0]), must be masked "
